@@ -3,7 +3,11 @@ documented maximiser, f is pure (empty frame, no RNG call), wrong dimension -> V
 
 
 def register(reg):
-    fn, loop, pred = reg.fn, reg.loop, reg.pred
+    loop, pred = reg.loop, reg.pred
+
+    def fn(q, **kw):
+        kw.setdefault("axioms", ["sqrt-arith", "rpow-arith"])
+        return reg.fn(q, **kw)
     P = "C17"
     X = {"x": "list[real]"}
 
